@@ -13,7 +13,7 @@ CHECKS = {
             "DESIGN.md §5 C01"),
     "C02": ("exploration",
             "bounded exhaustive enumeration of index paths x container shapes x logical shapes against a reference evaluator",
-            "Every index path of every length (indexes {0,1,3,u32::MAX,*}, keys {a,b,'',zz,*}) over every container field nested up to depth 3, with every applicable comparison and wrapper (not, parentheses, any/all in both argument forms), is executed on every shape-pool context (absent, empty, singleton, ragged, non-UTF-8 key); every chain of <=2 (quick) / <=3 (thorough) operators over five array-valued operands of unequal lengths is observed through any(), all() and - as the exact result vector - through an identity function; value expressions compared as values or typed absences.",
+            "Every index path of every length (indexes {0,1,3,u32::MAX,*}, keys {a,b,'',zz,*}) over every container field nested up to depth 3, with every applicable comparison and wrapper (not, parentheses, any/all in both argument forms), is executed on every shape-pool context (absent, empty, singleton, ragged, non-UTF-8 key), and the same path enumeration is run over function results (identity functions on six container types); every chain of <=2 (quick) / <=3 (thorough) operators over five array-valued operands of unequal lengths is observed through any(), all() and - as the exact result vector - through an identity function; value expressions compared as values or typed absences.",
             "Reference evaluator harness/src/sem.rs (path expansion, element-wise logic with truncation to the shortest operand); container values outside the shape pools are not explored.",
             "DESIGN.md §5 C02"),
     "C03": ("exploration",
@@ -28,7 +28,7 @@ CHECKS = {
             "DESIGN.md §5 C04"),
     "C05": ("exploration",
             "exhaustive enumeration of token strings and edit neighbourhoods; watchdog for non-termination; subprocess for size stressors",
-            "Every string of <=4 (quick) / <=5 (thorough) tokens over a 48-token alphabet hitting every lexer entry (identifiers, brackets, quotes, raw-string delimiters, escapes, digits, separators, operators, multi-byte and control characters) and the complete single-edit neighbourhood (delete, duplicate, truncate, insert each of 36 characters at each position; thorough: double edits on the 15 shortest) of a 62-filter corpus covering every construct is parsed as filter and as value expression: no panic, returns within the cap (watchdog), every error formats, and its text designates a line of the input with a column range inside that line. 41 size stressors (10^5-operand chains, 10^5-deep nestings of every construct, 10^5 list items / arguments / index accesses, raw strings with 255/256/10^5 hashes, giant identifiers and strings) run on a 2 MiB stack in a subprocess.",
+            "Every string of <=4 (quick) / <=5 (thorough) tokens over a 48-token alphabet hitting every lexer entry (identifiers, brackets, quotes, raw-string delimiters, escapes, digits, separators, operators, multi-byte and control characters) and the complete single-edit neighbourhood (delete, duplicate, truncate, insert each of 36 characters at each position; thorough: double edits on the 15 shortest) of a 62-filter corpus covering every construct is parsed as filter and as value expression: no panic, returns within the cap (watchdog), every error formats, and its text designates a line of the input with a column range inside that line. About 2 800 size stressors (10^5-operand chains, 10^5-deep nestings of every construct, 10^5 list items / arguments / index accesses, raw strings with 255/256/10^5 hashes, giant identifiers and strings, and runs of 254..65537 copies of each of 14 characters behind each of 18 lexer states, to cross the width of any narrow counter) run on a 2 MiB stack in a subprocess. The harness is built with overflow checks and debug assertions, as the repository's own tests are.",
             "Error well-formedness is read from the Display text only; inputs outside the enumerated families are not explored.",
             "DESIGN.md §5 C05"),
     "C06": ("exploration",
@@ -43,7 +43,7 @@ CHECKS = {
             "DESIGN.md §5 C07"),
     "C08": ("model_checking",
             "explicit-state BFS (to fixpoint in the thorough tier) over context operations executed on real contexts, against a reference map",
-            "States: up to two live contexts (on scheme A / its clone / a structurally identical scheme B) x four fields (Int, Bytes, Array(Int), Map(Array(Bytes))) x three values each - 13 203 reachable states in the thorough tier (fixpoint), depth 5 in the quick tier. Transitions: set through a field reference of each of the three schemes and by name with 5-7 values per field (well-typed, wrong primitive, right container / wrong element, wrong depth, wrong container), unknown names, clear, clone_with, new context on the twin scheme, take_with, borrow_with{0-2 inner sets}drop, drop. Every transition runs on real contexts rebuilt from the state; results (previous value / failure) and every observation (all reads, deep type walk, serialisation, equality, five filters and three value expressions of all three schemes on every context: value or scheme mismatch) are compared with the reference. Builders (Array::try_from_iter / try_from_vec, Map::try_from_iter) over 1 458 element-type / element-list combinations.",
+            "States: up to two live contexts (on scheme A / its clone / a structurally identical scheme B) x four fields (Int, Bytes, Array(Int), Map(Array(Bytes))) x three values each - 13 203 reachable states in the thorough tier (fixpoint), depth 5 in the quick tier. Transitions: set through a field reference of each of the three schemes and by name with 5-7 values per field (well-typed, wrong primitive, right container / wrong element, wrong depth, wrong container), unknown names, clear, clone_with, new context on the twin scheme, take_with, borrow_with{0-2 inner sets}drop, drop. Every transition runs on real contexts rebuilt from the state; results (previous value / failure) and every observation (all reads, deep type walk, serialisation, equality, five filters and three value expressions of all three schemes on every context: value or scheme mismatch) are compared with the reference. Builders (Array::try_from_iter / try_from_vec, Map::try_from_iter) over 1 458 element-type / element-list combinations; the statically typed builders (TypedArray / TypedMap in 18 nestings up to three levels x 0..2 elements): full nested type, homogeneity at every level, accepted by exactly the field of that type out of 18.",
             "A context's state is what it serialises to plus its scheme; merged states are rebuilt by plain sets (validated at every BFS step).",
             "DESIGN.md §5 C08"),
     "C09": ("exploration",
@@ -73,12 +73,12 @@ CHECKS = {
             "DESIGN.md §5 C15"),
     "C16": ("model_checking",
             "BFS over registration histories replayed on the real builder, states deduplicated on the observed registry",
-            "All sequences of up to 5 (quick) / 6 (thorough) operations out of 21 (add_field / add_optional_field / add_function over six colliding names x, x.y, x.y.z, X, xy, x_y; three list registrations, one of them for an already used type): each transition replays the history on a fresh real SchemeBuilder, compares every add_* result (success / which kind already holds the name / list redefinition) and the built scheme's fields(), functions(), lists(), counts and indexes with the reference registry; at every node up to length 4 (5) the scheme is interrogated with 19 names (prefixes, extensions, case variants, blanks) through get_field, get_function, get_list, uses and by parsing `name == 1`, `name == \"a\"`, `name(\"a\") == \"a\"`; scheme equality only between clones.",
+            "All sequences of up to 5 (quick) / 6 (thorough) operations out of 21 (add_field / add_optional_field / add_function over six colliding names x, x.y, x.y.z, X, xy, x_y; three list registrations, one of them for an already used type): each transition replays the history on a fresh real SchemeBuilder, compares every add_* result (success / which kind already holds the name / list redefinition) and the built scheme's fields(), functions(), lists(), counts and indexes with the reference registry; at every node up to length 4 (5) the scheme is interrogated with 19 names (prefixes, extensions, case variants, blanks) through get_field, get_function, get_list, uses and by parsing `name == 1`, `name == \"a\"`, `name(\"a\") == \"a\"`; scheme equality only between clones. States are merged on the built scheme's observable registry together with the kinds of refusals met so far (a refused call must change nothing, so the state after a refusal is not merged with the state before it); get_list per type is checked at every node.",
             "Registry states are merged when the built scheme exposes the same fields / functions / lists with the same indexes.",
             "DESIGN.md §5 C16"),
     "C17": ("model_checking",
             "exhaustive registrations x programs x names with recorded matcher queries; BFS over matcher-state histories on real contexts",
-            "All 16 registration orders / subsets of a harness list (named sets, records every query) for Int, Ip, Bytes (matchers are routed by registration index; the same names hold different contents per type) x every left-hand-side shape (field, index path, [*] paths, call, call over [*]) x 7 list names x 36 contexts: results equal set membership per element, the recorded (name, value) queries equal the reference in order, types without a list are rejected at parse time; every list name of length <=3 over {a,z,0,_,.} plus an invalid set in four syntactic positions; built-in always / never lists on every shape, also on deserialised, cloned and cleared-and-refilled contexts; BFS (depth 5 / 7) over {insert into a named set, set / unset a field, clear, serialise -> deserialise into a fresh context, clone} for three registrations, all in-list filters evaluated after every step, dedup on the serialised context.",
+            "All 16 registration orders / subsets of a harness list (named sets, records every query) for Int, Ip, Bytes (matchers are routed by registration index; the same names hold different contents per type) x every left-hand-side shape (field, index path, [*] paths, call, call over [*]) x 7 list names x 36 contexts: results equal set membership per element, the recorded (name, value) queries are queries the reference makes (exactly the reference's where the filter leaves no freedom of evaluation order), types without a list are rejected at parse time; every list name of length <=3 over {a,z,0,_,.} plus an invalid set in four syntactic positions; built-in always / never lists on every shape, also on deserialised, cloned and cleared-and-refilled contexts; BFS (depth 5 / 7) over {insert into a named set, set / unset a field, clear, serialise -> deserialise into a fresh context, clone} for three registrations, all in-list filters evaluated after every step, dedup on the serialised context; every sequence of <=4 (quick) / <=5 (thorough) registrations of always / never lists for three types, refused duplicates included, then `x in $name` per type answered by the accepted registration.",
             "The harness matcher's own (de)serialisation is serde-derived; state key = context serialisation.",
             "DESIGN.md §5 C17"),
     "C18": ("model_checking",
@@ -103,7 +103,7 @@ CHECKS = {
             "DESIGN.md §5 C12"),
     "C13": ("exploration",
             "exhaustive enumeration of nesting-construct sequences x limits x placements; subprocess for deep recursion",
-            "Every applicable sequence of the seven nesting constructs ((), not, !, any, all, call fb/fa, hex-named call fade) of length <=5 (quick) / <=7 (thorough) around a boolean and a boolean-array leaf x 6 placements (sole, left/right/middle chain operand, first/second call argument) x every limit 0..=7/8: accepted iff reference nesting <= limit; limits 16, 64, 128 (also through the default parser), 129, 200 with pure and cyclic shapes at d-1, d, d+1; value expressions with call nests; six depth-200 filters are parsed, serialised, hashed (C API), compiled, executed against the reference value and dropped on a 1 MiB stack in a subprocess.",
+            "Every applicable sequence of the seven nesting constructs ((), not, !, any, all, call fb/fa, hex-named call fade) of length <=5 (quick) / <=7 (thorough) around a boolean and a boolean-array leaf x 6 placements (sole, left/right/middle chain operand, first/second call argument) x every limit 0..=7/8, configured both through set_max_nesting_depth and through ParserSettings: accepted iff reference nesting <= limit; limits 16, 64, 128 (also through the default parser), 129, 200 with pure and cyclic shapes at d-1, d, d+1; value expressions with call nests; six depth-200 filters are parsed, serialised, hashed (C API), compiled, executed against the reference value and dropped on a 1 MiB stack in a subprocess.",
             "Nesting defined by ast::depth; rejection may carry any error kind.",
             "DESIGN.md §5 C13"),
 }
